@@ -169,6 +169,8 @@ func verifC08Diagnostics(c *c08Case) {
 	for _, dg := range p.Diagnostics {
 		code, _ := dg.Code.(string)
 		switch code {
+		case "UNDECLARED_ACCOUNT":
+			c08UndeclaredAccount(d, dg.Range)
 		case "UNDECLARED_COMMODITY":
 			c08Covers(d, dg.Range, "diagnostic undeclared commodity", c08KComm)
 		case "EMPTY_DATE_TAG", "INVALID_DATE_TAG":
@@ -182,4 +184,34 @@ func verifC08Diagnostics(c *c08Case) {
 	} else {
 		zzverif.Reach("C08.diagnostics.none")
 	}
+}
+
+// The undeclared-account warning names an account ("account 'x' is not declared") but carries the range of the
+// whole posting: from the first token after the indent to the end of the line.
+const c08ClsUndeclPosting = "c08-undeclared-account-whole-posting"
+
+func c08UndeclaredAccount(d *c08Doc, r protocol.Range) {
+	const what = "diagnostic undeclared account"
+	if d.covers(r, c08KAcct) >= 0 {
+		return
+	}
+	for li := range d.leaves {
+		l := &d.leaves[li]
+		if l.kind != c08KAcct || l.decl || uint32(l.line) != r.Start.Line {
+			continue
+		}
+		s, e := d.nextNonBlank(l.line, 0), len(d.blank[l.line])
+		if !c08IsRange(r, l.line, s, e) {
+			continue
+		}
+		need := c08ClsUndeclPosting
+		if d.u16At(l.line, s) != s || d.u16At(l.line, e) != e {
+			need += "+" + c08ClsAstral
+		}
+		if c08AllKnown(need) {
+			c08ReachKnown(need)
+			return
+		}
+	}
+	c08Covers(d, r, what, c08KAcct)
 }
